@@ -69,7 +69,16 @@ impl<Consumer> Pool<Consumer>
     pub(crate) fn add(&self, key_hash: KeyHash) {
         let pool_size = self.pool_size.0;
         let index = thread_rng().gen_range(0..pool_size);
+        #[cfg(cached_verif)] crate::cache::verif::event("buffer", &[index as i64, key_hash as i64]);
         self.buffers[index].write().add(key_hash);
+    }
+}
+
+#[cfg(cached_verif)]
+impl<Consumer> Pool<Consumer>
+    where Consumer: BufferConsumer {
+    pub(crate) fn verif_buffer_lens(&self) -> Vec<Option<usize>> {
+        self.buffers.iter().map(|buffer| buffer.try_read().map(|buffer| buffer.key_hashes.len())).collect()
     }
 }
 
